@@ -146,9 +146,13 @@ class LocalLink:
         packet: ll.ControlPdu,
     ):
         if not (receiver_controller := self.find_le_controller(receiver_address)):
-            raise core.InvalidArgumentError(
-                f"Unable to find controller for address {receiver_address}"
+            # The peer has just dropped the connection (its LL_TERMINATE_IND is on its
+            # way to the sender): the PDU is lost, like on the air.
+            logger.debug(
+                f"no controller holds a connection as {receiver_address}, "
+                f"dropping {packet}"
             )
+            return
         asyncio.get_running_loop().call_soon(
             lambda: receiver_controller.on_ll_control_pdu(sender_address, packet)
         )
